@@ -106,8 +106,28 @@ func (p *Program) isRecursive(fn *ssa.Function) bool {
 	return false
 }
 
+// checkGuards: contract-level guards "guard call|write|read <name>: e" become obligations at the matching sites.
+func (ex *Exec) checkGuards(fr *Frame, st *State, kind, name string, pos token.Pos) {
+	if !fr.top || fr.contract == nil {
+		return
+	}
+	for _, g := range fr.contract.Guards {
+		if g.Kind != kind || g.Name != name {
+			continue
+		}
+		goal := ex.specBool(fr, st, g.C)
+		ex.top.oblCount["guard:"+kind+name]++
+		ex.obligeNamed(st, fmt.Sprintf("%s#guard(%s %s)%d", funcKey(ex.top.fn), kind, name, ex.top.oblCount["guard:"+kind+name]), "guard", goal, "guard at every "+kind+" of "+name+": "+g.C.Text, pos)
+	}
+}
+
 func (ex *Exec) call(fr *Frame, st *State, c *ssa.CallCommon, instr ssa.Instruction) Value {
 	pos := instr.Pos()
+	if c.IsInvoke() {
+		ex.checkGuards(fr, st, "call", c.Method.Name(), pos)
+	} else if sc := c.StaticCallee(); sc != nil {
+		ex.checkGuards(fr, st, "call", sc.Name(), pos)
+	}
 	if b, ok := c.Value.(*ssa.Builtin); ok {
 		return ex.builtin(fr, st, b, c, pos)
 	}
@@ -415,6 +435,14 @@ func isErrorType(t types.Type) bool {
 }
 
 func (ex *Exec) applyContract(fr *Frame, st *State, fn *ssa.Function, ct *Contract, args []Value, c *ssa.CallCommon, pos token.Pos) Value {
+	// addresses of package-level variables become fixed references
+	for i, a := range args {
+		if p, ok := a.(Ptr); ok {
+			if g, isG := p.Loc.Root.(GlobalRoot); isG && len(p.Loc.Path) == 0 {
+				args[i] = Term{S: fmt.Sprintf("(- %d)", ex.globalID(g.G)), T: types.NewPointer(p.Loc.T)}
+			}
+		}
+	}
 	names := paramNames(fn, ct, c)
 	sig := c.Signature()
 	cname := ct.Key()
